@@ -26,6 +26,9 @@ type Biscuit struct {
 	blocks    []*Block
 	symbols   *datalog.SymbolTable
 	container *pb.Biscuit
+	// symbolCounts[i] is the length of symbols once block i (0 = authority) had been added:
+	// the part of the table that block may refer to
+	symbolCounts []int
 }
 
 var (
@@ -128,9 +131,10 @@ func newBiscuit(root ed25519.PrivateKey, baseSymbols *datalog.SymbolTable, autho
 	}
 
 	return &Biscuit{
-		authority: authority,
-		symbols:   symbols,
-		container: container,
+		authority:    authority,
+		symbols:      symbols,
+		container:    container,
+		symbolCounts: []int{symbols.Len()},
 	}, nil
 }
 
@@ -230,10 +234,11 @@ func (b *Biscuit) Append(rng io.Reader, block *Block) (*Biscuit, error) {
 	container.Blocks = append(container.Blocks, signedBlock)
 
 	return &Biscuit{
-		authority: authority,
-		blocks:    blocks,
-		symbols:   symbols,
-		container: container,
+		authority:    authority,
+		blocks:       blocks,
+		symbols:      symbols,
+		container:    container,
+		symbolCounts: append(append([]int{}, b.symbolCounts...), symbols.Len()),
 	}, nil
 }
 
@@ -296,10 +301,11 @@ func (b *Biscuit) Seal(rng io.Reader) (*Biscuit, error) {
 	symbols := b.symbols.Clone()
 
 	return &Biscuit{
-		authority: authority,
-		blocks:    blocks,
-		symbols:   symbols,
-		container: container,
+		authority:    authority,
+		blocks:       blocks,
+		symbols:      symbols,
+		container:    container,
+		symbolCounts: append([]int{}, b.symbolCounts...),
 	}, nil
 }
 
@@ -614,21 +620,9 @@ func (b *Biscuit) generateWorld(symbols *datalog.SymbolTable) (*datalog.World, e
 // symbolsUpTo returns the part of the token's symbol table that block number `block`
 // (0 = authority) may refer to: the base symbols, its own table and those of earlier blocks.
 func (b *Biscuit) symbolsUpTo(block int) *datalog.SymbolTable {
-	declared := b.authority.symbols.Len()
-	for _, blk := range b.blocks {
-		declared += blk.symbols.Len()
-	}
-	// symbols present before the authority block was added (custom base table)
-	n := b.symbols.Len() - declared
-	if n < 0 {
-		n = 0
-	}
-	n += b.authority.symbols.Len()
-	for i := 0; i < block && i < len(b.blocks); i++ {
-		n += b.blocks[i].symbols.Len()
-	}
-	if n > b.symbols.Len() {
-		n = b.symbols.Len()
+	n := b.symbols.Len()
+	if block < len(b.symbolCounts) && b.symbolCounts[block] < n {
+		n = b.symbolCounts[block]
 	}
 	prefix := (*b.symbols)[:n:n]
 	return &prefix
